@@ -37,6 +37,7 @@ func checkC09(c *Check, a *Anchors) {
 	c08IncludeBase(c, a) // a file is one vertex however often it is included; a base that depends on the including node depends on which include read it first
 	orderedRebuildSinglePass(c, a, "ordered-rebuild-single-pass")
 	copyReturnsFresh(c, a, "copy-returns-fresh")
+	c09VertexDependsOnNodeOnly(c, a)
 }
 
 func loadPhaseRoots(c *Check, a *Anchors) []*FuncBody {
@@ -624,4 +625,51 @@ func hasCall(info *types.Info, n ast.Node) bool {
 		return !found
 	})
 	return found
+}
+
+// c09VertexDependsOnNodeOnly: a Taskfile is one vertex of the include graph however many Taskfiles include it, and it is read
+// by whichever includer's goroutine gets there first.
+func c09VertexDependsOnNodeOnly(c *Check, a *Anchors) {
+	c.Rule("vertex-depends-on-node-only", "the recursive reader function that adds a Taskfile's vertex and explores its includes takes nothing from its caller but the context and the node: the vertex is created once, by the first includer to arrive, so anything else handed down (the include statement's vars, its dir …) makes what is read below it depend on goroutine scheduling when a file is included more than once")
+	n := 0
+	for _, fb := range c.P.BodiesIn(PkgTaskfile) {
+		if fb.Decl == nil || recvOf(fb) != "Reader" {
+			continue
+		}
+		addsVertex, recurses := false, false
+		for _, call := range callsIn(fb, true) {
+			fn, ok := callee(fb.Info(), call).(*types.Func)
+			if !ok {
+				continue
+			}
+			if fn.Name() == "AddVertex" {
+				addsVertex = true
+			}
+			if fn == fb.Obj {
+				recurses = true
+			}
+		}
+		if !addsVertex || !recurses {
+			continue
+		}
+		n++
+		c.Fn(fb)
+		var extra []string
+		for _, fld := range fb.Type.Params.List {
+			tv, ok := fb.Info().Types[fld.Type]
+			if !ok {
+				continue
+			}
+			ts := types.TypeString(tv.Type, nil)
+			if ts == "context.Context" || isNamed(tv.Type, PkgTaskfile, "Node") {
+				continue
+			}
+			for _, id := range fld.Names {
+				extra = append(extra, id.Name+" "+types.TypeString(tv.Type, shortQual))
+			}
+		}
+		c.Decide(len(extra) == 0, "vertex-depends-on-node-only", "params@"+fnDisplay(fb), fb.Decl.Pos(), "parameters: the context and the node",
+			fnDisplay(fb)+" also receives "+strings.Join(extra, ", ")+" from the including side: a Taskfile that is included twice (with different values) is explored with those of whichever includer reached it first, so the Taskfiles loaded below it — task names, commands — change from run to run")
+	}
+	c.Floor("vertex-depends-on-node-only", n, 1)
 }
